@@ -31,7 +31,7 @@ BIG = Fraction(10) ** 300
 BOUNDS = {
     'quick': 'G = {k/8: |k|<=64} + {+-10^e: |e|<=6} (153 reals) + {k*PI()/12: |k|<=24}; 23 one-argument '
              'functions + PI on G as variable and as literal; numeric text of every plainly spellable G value, '
-             'logicals, 6 non-numeric texts (variable and literal); LOG(x,b) and POWER on 21x21; ATAN2 on '
+             'logicals, 10 non-numeric texts (variable and literal); LOG(x,b) and POWER on 21x21; ATAN2 on '
              '{-2,-1,-.5,0,.5,1,2}^2 x 4 forms + logicals + text faults; 30 identities on G; PV on 6 rates x 5 '
              'periods x 3 payments x (omitted | 3 futures x (omitted,0,1)) x 2 forms; RAND under 4 source '
              'answers; RANDBETWEEN on all integer a<=b in -4..4 (+3 far pairs) x every source answer',
@@ -148,7 +148,7 @@ def parse_text(s):
         return float(s)
 
 
-BADTEXT = ['abc', '', '12abc', 'x', '-', 'one']
+BADTEXT = ['abc', '', '12abc', 'x', '-', 'one', 'inf', 'nan', '-Infinity', '1_0']
 # signed and exponent spellings of numbers (how floats of large/small magnitude are usually written)
 SPELLINGS = ['+0.5', '+2', '1e+16', '6.02e+23', '1E+16', '1e16', '1E5', '2.5e-3', '-1e-3', '1e+0']
 
@@ -386,7 +386,7 @@ class Unary(Sub):
 class Coercion(Sub):
     name = 'c16.coercion'
     rule = ('every function x every argument position x {numeric text of every plainly spellable grid value, '
-            'TRUE, FALSE, 6 non-numeric texts}, each as variable and as literal; numeric text/logicals must '
+            'TRUE, FALSE, 10 non-numeric texts}, each as variable and as literal; numeric text/logicals must '
             'behave as the number, non-numeric text must give an error; non-trivial = all')
     min_cases = 3000
     min_nontrivial = 3000
